@@ -100,6 +100,10 @@ func NewMerger(less func(a, b *sam.Record) bool, src ...*Reader) (*Merger, error
 		if err != nil && err != io.EOF {
 			return nil, err
 		}
+		if rec != nil {
+			// Records are compared in terms of the merged header.
+			m.reassignReference(i, rec)
+		}
 		readers[i] = reader{id: i, r: r, head: rec, err: err}
 		m.readers[i] = &readers[i]
 	}
@@ -163,6 +167,7 @@ func (m *Merger) nextBySortOrder() (rec *sam.Record, err error) {
 	rec, err = reader.head, reader.err
 	reader.head, reader.err = reader.r.Read()
 	if reader.err == nil {
+		m.reassignReference(reader.id, reader.head)
 		m.push(reader)
 	} else if reader.err != io.EOF {
 		m.err = reader.err
@@ -173,7 +178,6 @@ func (m *Merger) nextBySortOrder() (rec *sam.Record, err error) {
 	if err == io.EOF {
 		err = nil
 	}
-	m.reassignReference(reader.id, rec)
 	return rec, err
 }
 
